@@ -319,6 +319,32 @@ func genRandomSet(rng *rand.Rand, pool []string, maxExpr int) []trule {
 	return rules
 }
 
+// instPath writes a request path along an expression: literal segments as they are (escapes removed), wildcards
+// filled from segs.
+func instPath(rng *rand.Rand, expr string, segs []string) string {
+	parsed, ok := core.ParseExpr(expr)
+	if !ok {
+		return expr
+	}
+	var out []string
+	for _, sg := range parsed {
+		switch sg.Kind {
+		case core.SegLiteral:
+			out = append(out, sg.Lit)
+		case core.SegSingle:
+			out = append(out, segs[rng.IntN(len(segs))])
+		default:
+			for n := 1 + rng.IntN(2); n > 0; n-- {
+				out = append(out, segs[rng.IntN(len(segs))])
+			}
+		}
+	}
+	if rng.IntN(8) == 0 && len(out) > 0 {
+		out[rng.IntN(len(out))] = segs[rng.IntN(len(segs))]
+	}
+	return "/" + strings.Join(out, "/")
+}
+
 // permuteKeepingGroupOrder shuffles rules but keeps the relative order of rules sharing an
 // expression (that order is part of the specification).
 func permuteKeepingGroupOrder(rng *rand.Rand, rules []trule) []trule {
@@ -344,8 +370,9 @@ func permuteKeepingGroupOrder(rng *rand.Rand, rules []trule) []trule {
 }
 
 func c02Random(r *core.Run) {
-	pool := allExprs(4, []string{"a", "b", "ab", ":x", ":y", ":*", "*r", "**", `\:a`, `\*a`, `\\a`, "a:b"})
-	paths := allPaths(5, []string{"a", "b", "ab", "abc", ":a", "*a", `\a`, "a:b", ""})
+	pool := allExprs(4, []string{"a", "b", "ab", ":x", ":y", ":*", "*r", "**", `\:a`, `\*a`, `\\a`, "a:b", `\:`, `\*`, `\\`})
+	pSegs := []string{"a", "b", "ab", "abc", ":a", "*a", `\a`, "a:b", "", ":", "*", `\`}
+	paths := allPaths(5, pSegs)
 	nSets := r.Pick(3000, 100000)
 	maxExpr := r.Pick(8, 25)
 	workers := runtime.NumCPU()
@@ -383,6 +410,10 @@ func c02Random(r *core.Run) {
 				}
 				for k := 0; k < 40; k++ {
 					p := paths[rng.IntN(len(paths))]
+					if k%2 == 1 {
+						// a path built along one of the expressions of the set
+						p = instPath(rng, rules[rng.IntN(len(rules))].Expr, pSegs)
+					}
 					tag := 1 + rng.IntN(6)
 					exp := refLookupID(rr, p, tag)
 					nEval++
